@@ -73,6 +73,8 @@ structure Cfg where
   handlers : List HK := []
   /-- depth limit of the visitor (`< 0` = unlimited) -/
   lim : Int := -1
+  /-- the CIDs for which `Provider.StartProviding` returns an error -/
+  provFail : Nat → Bool := fun _ => false
 
 /-- the `set map[cid.Cid]int` of FetchGraphWithDepthLimit -/
 abbrev Vis := List (Nat × Nat)
@@ -102,7 +104,12 @@ def fetchStep (g : Graph) (cfg : Cfg) (c : Nat) (l : Logs) : (Except Err (List N
   match r2.1 with
   | some e => (.error e, r2.2)
   | none =>
-    let l3 := if cfg.provider then { r2.2 with prov := r2.2.prov ++ [c] } else r2.2
+    -- `if err = prov.StartProviding(false, c.Hash()); err != nil { log.Warnf(...) }`: the provider's error is
+    -- only logged; neither walk returns it (`C12.c12_provider_error_ignored`)
+    let l3 := if cfg.provider then
+        let _warned : Bool := cfg.provFail c
+        { r2.2 with prov := r2.2.prov ++ [c] }
+      else r2.2
     (.ok r.2, l3)
 
 inductive Outcome where
